@@ -125,6 +125,8 @@ PROGRAMS = [
     ("sym_scaled", "x = a\ny = c\nz = a*c\nwhile true:\n    x = 3*x\n    y = 3*y\n    z = 9*z\nend\n", ["x", "y", "z"], {"a": "2", "c": "5"}),
     ("sym_offsets", "x = a\ny = 2*a + 1\nwhile true:\n    x = 2*x\n    y = 2*y\nend\n", ["x", "y"], {"a": "3"}),
     ("sym_walk", "x = a\ny = b\nwhile true:\n    x = x + 1 {1/2} x - 1\n    y = y + 2 {1/2} y - 2\nend\n", ["E(x)", "E(y)", "c2(x)", "c2(y)"], {"a": "1", "b": "-2"}),
+    ("central_and_cumulant", "x = 0\nb = 0\nwhile true:\n    b = Bernoulli(1/3)\n    x = x/2 + b\nend\n", ["c2(x)", "c4(x)", "k4(x)"]),
+    ("cumulant_and_central", "x = 0\nb = 0\nwhile true:\n    b = Bernoulli(1/3)\n    x = x/2 + b\nend\n", ["k4(x)", "c4(x)", "k2(x)"]),
     ("nilp", "x, y, z = 1, 2, 3\nwhile true:\n    x = y\n    y = z\n    z = 0\nend\n", ["x", "y"]),
 ]
 
